@@ -239,7 +239,7 @@ func c15Esc(c *Ctx, r *Report) {
 			}
 			n++
 			k++
-			r.check("C15.ESC", fmt.Sprintf("%s: quoted text write #%d (%s) is escaped", fnName(fn), k, shortPath(vpath(cv.X))), ci.Pos(), false,
+			r.flag("C15.ESC", fmt.Sprintf("%s: quoted text write #%d (%s) is escaped", fnName(fn), k, shortPath(vpath(cv.X))), ci.Pos(),
 				"text is written between quotes without escaping: a backslash, a quote at the end, or \"\"\" inside it does not survive printing and re-parsing")
 		}
 	}
